@@ -180,6 +180,7 @@ var queries = map[string]string{
 	"maybe":  `{ maybe { id val } flag }`,
 	"all":    `{ flag items { id } maybe { val } }`,
 	"boom":   `{ flag boom }`,
+	"xboom":  `{ flag xboom }`,
 	"people": `{ people { id score } }`,
 	"slow":   `{ slow }`,
 	"bad":    `{ nosuchfield }`,
@@ -200,6 +201,7 @@ type world struct {
 	st       *rt.Var[state]
 	regMu    vsync.Mutex
 	reg      []*reactive.Resource
+	regBoom  []*reactive.Resource // per-run resources that only the boom-* changes invalidate
 	clean    map[*reactive.Resource]int
 	all      []*reactive.Resource
 	events   []event
@@ -254,6 +256,43 @@ func (w *world) apply(ci int) {
 	w.st.Update(changes[ci].f)
 	rt.Note("data change %s", changes[ci].name)
 	w.invalidateAll()
+	if strings.HasPrefix(changes[ci].name, "boom-") {
+		w.regMu.Lock()
+		rs := append([]*reactive.Resource{}, w.regBoom...)
+		w.regMu.Unlock()
+		for _, r := range rs {
+			r.Invalidate()
+		}
+	}
+}
+
+// depBoom registers a per-run resource that only the boom-* changes invalidate (a dependency of its own, next to
+// the store-wide one of the other resolvers).
+func (w *world) depBoom(ctx context.Context) state {
+	res := reactive.NewResource()
+	w.regMu.Lock()
+	w.regBoom = append(w.regBoom, res)
+	w.all = append(w.all, res)
+	w.regMu.Unlock()
+	res.Cleanup(func() {
+		w.regMu.Lock()
+		for i, r := range w.regBoom {
+			if r == res {
+				w.regBoom = append(w.regBoom[:i:i], w.regBoom[i+1:]...)
+				break
+			}
+		}
+		w.clean[res]++
+		n := w.clean[res]
+		w.regMu.Unlock()
+		if n > 1 {
+			w.x.Fail("cleanup<=1", "", "a resource was cleaned up %d times", n)
+		}
+	})
+	reactive.AddDependency(ctx, res, nil)
+	w.touch()
+	w.execs++
+	return w.st.Load()
 }
 
 func (w *world) invalidateAll() {
@@ -324,6 +363,17 @@ func (w *world) buildSchema() *graphql.Schema {
 		}
 		return st.Flag, nil
 	})
+	q.FieldFunc("xboom", func(ctx context.Context) (string, error) {
+		switch w.depBoom(ctx).Boom {
+		case "error":
+			return "", errors.New("db password is " + secret)
+		case "safe":
+			return "", graphql.NewSafeError("visible to the client")
+		case "panic":
+			panic("resolver exploded: " + secret)
+		}
+		return "ok", nil
+	}, schemabuilder.Expensive)
 	q.FieldFunc("boom", func(ctx context.Context) (string, error) {
 		st := w.dep(ctx)
 		mode := st.Boom
